@@ -13,7 +13,7 @@ normal *and* exceptional postcondition: the state at a panic point is well-forme
 
 Two groups.
 * any build (nothing assumed about `cfg.debug`): `writeVar`, `subscribe`, `unsubscribe`,
-  `disallowFutureUse`, `elabInstr`, `elabTemplate`, the expert operations other than
+  `disallowFutureUse`, `elabInstr`, `elabInstrM`, `memoCall`, `elabTemplate`, the expert operations other than
   `expertAddDependency`, `unlinkDisallowedObservers`, and all of the heap primitives / the
   becoming-unnecessary and invalidation cascades (see `Proofs/HeapWF.lean`).
 * debug builds (`cfg.debug = true` before, and it stays true): `stabilise`, `expertAddDependency`
@@ -24,7 +24,7 @@ Two groups.
 NOT YET COVERED: in release mode (`cfg.debug = false`): `setMaxHeightAllowed` (a release build can drop
 non-empty buckets: the emptiness check is a `debug_assert!`), `becameNecessary`,
 `addParentWithoutAdjustingHeights`, `becameNecessaryPropagate`, `adjustHeightsLoop`, `adjustHeights`,
-`stateAddParent`, `changeChildBindRhs`, `expertAddDependency`, `runEffects`, `recomputeOne`,
+`stateAddParent`, `changeChildBindRhs`, `expertAddDependency`, `runEffects`, `perKeyDriver`, `recomputeOne`,
 `recompute`, `drainHeap`, `addNewObservers`, `runAll`, `stabiliseEnd`, `stabilise` — for these
 `HeapWF` alone is not inductive (counterexample below); they are covered in debug mode only.
 -/
@@ -59,10 +59,21 @@ theorem elabInstr (loc : List Nat) (lhsVal : Val) (i : Instr) :
     ⦃post⟨fun _ s => ⌜HeapWF s⌝, fun _ s => ⌜HeapWF s⌝⟩⦄ :=
   (elabInstr_spec .release loc lhsVal i).heapWF
 
-theorem elabTemplate (t : Template) (lhsVal : Val) :
-    ⦃fun s => ⌜HeapWF s⌝⦄ elabTemplate t lhsVal
+theorem elabTemplate (env : Env) (t : Template) (lhsVal : Val) :
+    ⦃fun s => ⌜HeapWF s⌝⦄ elabTemplate env t lhsVal
     ⦃post⟨fun _ s => ⌜HeapWF s⌝, fun _ s => ⌜HeapWF s⌝⟩⦄ :=
-  (elabTemplate_spec .release t lhsVal).heapWF
+  (elabTemplate_spec .release env t lhsVal).heapWF
+
+/-- instructions including memoised calls (what closures and top-level `create` actions run) -/
+theorem elabInstrM (env : Env) (loc : List Nat) (lhsVal : Val) (i : Instr) :
+    ⦃fun s => ⌜HeapWF s⌝⦄ elabInstrM env loc lhsVal i
+    ⦃post⟨fun _ s => ⌜HeapWF s⌝, fun _ s => ⌜HeapWF s⌝⟩⦄ :=
+  (elabInstrM_spec .release env loc lhsVal i).heapWF
+
+theorem memoCall (env : Env) (m : Nat) (key : Int) :
+    ⦃fun s => ⌜HeapWF s⌝⦄ memoCall env m key
+    ⦃post⟨fun _ s => ⌜HeapWF s⌝, fun _ s => ⌜HeapWF s⌝⟩⦄ :=
+  (memoCall_spec .release env m key).heapWF
 
 theorem expertRemoveDependency (fuel n dep : Nat) :
     ⦃fun s => ⌜HeapWF s⌝⦄ expertRemoveDependency fuel n dep
